@@ -4,6 +4,7 @@ CONSTANTS
   Kinds <- KindsN
   MaxT = 1
   Variant = "curl_y"
+  Srcs = "few"
 INVARIANT TypeOK
 INVARIANT PermInv
 INVARIANT PermBijective
